@@ -703,3 +703,16 @@ pub proof fn lemma_class_exact(need: nat, size: nat)
     ensures size == need
 {}
 } // verus!
+
+verus! {
+/// the item count lives in header bytes 24..32
+pub proof fn lemma_rd_count_same(hb: Seq<u8>, hb2: Seq<u8>)
+    requires hb.len() >= 128, hb2.len() >= 128, rd(hb2, 0, 128) == rd(hb, 0, 128)
+    ensures htx_count(hb2) == htx_count(hb), htx_stored_n(hb2) == htx_stored_n(hb)
+{
+    assert(rd(hb2, 24, 8) =~= rd(rd(hb2, 0, 128), 24, 8));
+    assert(rd(hb, 24, 8) =~= rd(rd(hb, 0, 128), 24, 8));
+    assert(rd(hb2, 16, 8) =~= rd(rd(hb2, 0, 128), 16, 8));
+    assert(rd(hb, 16, 8) =~= rd(rd(hb, 0, 128), 16, 8));
+}
+} // verus!
